@@ -125,6 +125,10 @@ func runC09(c *Ctx) {
 	checkSetterValues(c, "pk", []string{"SlashMeter"})
 	checkSetterValues(c, "ck", []string{"SlashRecord"})
 	checkIterDelete(c, 2, "ck")
+	checkParamGetters(c, "ck", "GetRetryDelayPeriod")
+	checkCollectors(c, "ck", "GetAllPendingPacketsWithIdx")
+	c.KeyShapeIs("ct.PendingDataPacketsV1Key", "Const(PendingDataPacketsV1Key)·U64(param:idx)", "pending packets are read back in index order (FIFO)")
+	checkParamGetters(c, "pk", "GetSlashMeterReplenishPeriod", "GetSlashMeterReplenishFraction")
 
 	c.Rule("R3", "provider BeginBlock runs BeginBlockCIS on every success path; BeginBlockCIS runs CheckForSlashMeterReplenishment", 2)
 	if f := c.Fn("provider.AppModule.BeginBlock"); f != nil {
